@@ -237,6 +237,18 @@ class TaggedDistanceEdge(DistanceEdge):
         return None
 
 
+def make_dist_variant(name, accept=None):
+    """A fresh registered type that parses the EDGE_VF_DIST tag (optionally only the lines whose two ids satisfy `accept`)."""
+    def from_g2o(cls, line, g2o_params_or_none=None):
+        if line.startswith(cls.TAG + " "):
+            t = line[len(cls.TAG) + 1:].split()
+            if accept is not None and not accept(int(t[0]), int(t[1])):
+                return None
+            return cls([int(t[0]), int(t[1])], np.array([[float(t[3])]]), float(t[2]))
+        return None
+    return type("DistVariant_" + name, (TaggedDistanceEdge,), {"from_g2o": classmethod(from_g2o)})
+
+
 class TaggedPriorEdge(PositionPriorEdge):
     """EDGE_VF_PRIOR id x y w"""
 
